@@ -22,7 +22,7 @@ ASSUMPTIONS = ['oracle: atan2(|a x b|, a.b) separation and tangent-basis positio
 MIN_REACH = {'angle_tools:gcd': 1, 'angle_tools:bear': 1, 'angle_tools:translate': 1,
              'angle_tools:dec2dms': 1, 'angle_tools:dec2hms': 1, 'angle_tools:dec2dec': 1}
 MIN_COUNTERS = {'contract_gcd': 10, 'contract_bear': 10, 'contract_translate': 10, 'contract_dms': 10,
-                'contract_hms': 10, 'parse_padded': 1000}
+                'contract_hms': 10, 'parse_padded': 1000, 'contract_bear_from_exact_pole': 50, 'translate_destination_is_a_pole': 1000}
 
 TOL = 1e-9          # degrees, from the statement
 _OBS = None         # the Obs the installed contracts record into
@@ -71,6 +71,11 @@ def post_bear(ra1, dec1, ra2, dec2, result):
     # a direction exists only away from coincidence/antipode and away from the poles, and the rounding
     # error of any double-precision formula grows as 1e-16/(sin(sep) cos(dec1)): judge where both >= 1e-3
     judged = np.isfinite(res) & (np.sin(np.radians(s)) >= 1e-3) & (np.cos(np.radians(d1)) >= 1e-3)
+    # ... and EXACTLY at a pole, where the standard formula is well conditioned again (sin(dec1) = +-1, cos(dec1) = 6e-17): the
+    # position angle is counted from the meridian of ra1, 180 - dRA at the north pole and dRA at the south pole
+    at_pole = (np.abs(d1) == 90.0) & (np.sin(np.radians(s)) >= 1e-3) & (np.cos(np.radians(d2)) >= 1e-3) & np.isfinite(res)
+    o.count('contract_bear_from_exact_pole', at_pole.sum())
+    judged = judged | at_pole
     o.count('contract_bear', judged.sum())
     o.count('bear_undetermined', (~judged).sum())
     err = np.abs(sphere.angdiff(res, ref))
@@ -199,7 +204,7 @@ def cases(seed, tier):
     for st in strata:
         for k in range(reps):
             out.append({'kind': 'pairs', 'stratum': st, 'n': n, 'seed': [seed, st, k]})
-    for st in ['uniform', 'small_r', 'large_r', 'polar_start', 'cardinal']:
+    for st in ['uniform', 'small_r', 'large_r', 'polar_start', 'cardinal', 'to_pole']:
         for k in range(reps):
             out.append({'kind': 'translate', 'stratum': st, 'n': n, 'seed': [seed, st, k]})
     out.append({'kind': 'sexa_carries', 'which': 'dms'})
@@ -307,6 +312,15 @@ def run(case):
                 r = 180 - 10 ** rng.uniform(-9, 1, n)
             elif st == 'polar_start':
                 dec = rng.choice([-1, 1], n) * (90 - 10 ** rng.uniform(-9, 0, n))
+            elif st == 'to_pole':
+                # the destination is a pole itself: due north by the co-latitude, due south by 90 + dec, or across the pole
+                north = rng.random(n) < 0.5
+                r = np.where(north, 90.0 - dec, 90.0 + dec)
+                t = np.where(north, 0.0, 180.0)
+                m = rng.random(n) < 0.2
+                t = np.where(m, np.where(north, 360.0, 180.0), t)
+                r = np.where(r < 1e-6, 1.0, r)
+                o.count('translate_destination_is_a_pole', n)
             elif st == 'cardinal':
                 t = rng.choice([0.0, 90.0, 180.0, 270.0, 360 - 1e-9, 45.0], n)
                 ra = rng.choice([0.0, 359.9999999, 180.0], n)
